@@ -503,7 +503,74 @@ func (f *Frame) inputTerms() map[string]Term {
 			addInputTerms(out, p.Name(), v)
 		}
 	}
+	// contents of integer slices (for replay on the real code): the first elements at entry
+	if f.entry != nil && replayableSig(f.fn) {
+		for _, p := range f.fn.Params {
+			v, ok := f.env[p]
+			if !ok || v.K != KSlice {
+				continue
+			}
+			et := elemOf(v.Ty)
+			n := replaySliceElems(et)
+			for i := 0; i < n; i++ {
+				ev := f.c.load(f.entry, RefElem(v.Base, f.c.idxAdd(v.Off, f.c.idxLit(int64(i)))), et)
+				out[fmt.Sprintf("%s[%d]", p.Name(), i)] = ev.T
+			}
+		}
+	}
 	return out
+}
+
+// replaySliceElems: how many leading elements of a slice input are reported in models.
+func replaySliceElems(et types.Type) int {
+	if w, _, ok := intInfo(et); ok {
+		if w == 8 {
+			return 272
+		}
+		return 32
+	}
+	return 0
+}
+
+// replayPossible: plain function whose parameters the replay harness can construct.
+func replayPossible(fn *ssa.Function) bool {
+	if fn.Signature.Recv() != nil || fn.Parent() != nil {
+		return false
+	}
+	for _, p := range fn.Params {
+		if scalarShape(p.Type()) {
+			continue
+		}
+		if sl, ok := p.Type().Underlying().(*types.Slice); ok {
+			if _, _, isInt := intInfo(sl.Elem()); isInt {
+				continue
+			}
+		}
+		return false
+	}
+	return true
+}
+
+// replayableSig: plain function whose parameters are scalars or integer slices (the shapes the
+// generic replay harness can construct).
+func replayableSig(fn *ssa.Function) bool {
+	if fn.Signature.Recv() != nil || fn.Parent() != nil {
+		return false
+	}
+	hasSlice := false
+	for _, p := range fn.Params {
+		if scalarShape(p.Type()) {
+			continue
+		}
+		if sl, ok := p.Type().Underlying().(*types.Slice); ok {
+			if _, _, isInt := intInfo(sl.Elem()); isInt {
+				hasSlice = true
+				continue
+			}
+		}
+		return false
+	}
+	return hasSlice
 }
 
 func addInputTerms(out map[string]Term, name string, v *Val) {
